@@ -578,14 +578,7 @@ func dfs(res *core.Result, pool *idPool, r *rand.Rand, rc runCfg, budget int) {
 	}
 }
 
-func parallel(n int, fn func(w int)) {
-	var wg sync.WaitGroup
-	for w := 0; w < n; w++ {
-		wg.Add(1)
-		go func(w int) { defer wg.Done(); fn(w) }(w)
-	}
-	wg.Wait()
-}
+func parallel(n int, fn func(w int)) { core.Parallel(n, fn) }
 
 func topologies(r *rand.Rand, n int) []*vmesh.Topology {
 	out := []*vmesh.Topology{
